@@ -8,7 +8,7 @@ Transcribed from (repository with the `fix:` commits of this work package applie
                       shutdown_modules, _getSortedModules
   frappy/server.py    _processCfg (create → describe → [errors? exit] → startModule on every module → wait)
   frappy/modulebase.py earlyInit / initModule (registration for polling) / startModule / __pollThread prologue
-                      (writeInitParams for every member, first polls, started callback) / stopPollThread
+                      (writeInitParams for every member, first polls, started callback, writeInitParams once more) / stopPollThread
   frappy/modules.py   Attached.__get__ (resolution with existence and type check)
   frappy/io.py        HasIO.__init__ (automatic communicator, ioDict), HasIO.initModule
   frappy/lib/multievent.py  MultiEvent (set of pending events, wait = all set or timed out)
@@ -381,20 +381,27 @@ def pollLoop (st : St) : List Name → LoopRes
     | (evs, some _) => ⟨evs, some ms⟩
     | (evs, none) => ⟨evs ++ (pollLoop st ms).evs, (pollLoop st ms).aborted⟩
 
-/-- the first polls the main loop of the poll thread does for modules the start-up sequence did not reach
+/-- `for mobj in modules: mobj.writeInitParams()` behind the start-up sequence (after the `fix:` commit "start values
+skipped by a communication failure …"), seen from the members the sequence did **not** reach: their `writeDict` is still
+complete.  (For the members it did reach the call finds `writeDict` empty — `writeInitParams` pops every entry before it
+calls the write method — and logs nothing.)  Nothing leaves `writeInitParams`, so every member is served. -/
+def lateWrites (st : St) (ms : List Name) : List Ev := ms.flatMap (fun m => (writeInitParams (objOf st m)).1)
+
+/-- the first polls the main loop of the poll thread does for modules the start-up sequence did not poll
 (`callPollFunc(rfunc)`: nothing is re-raised) -/
 def latePolls (st : St) (ms : List Name) : List Ev := ms.flatMap (fun m => (firstPollOne (objOf st m) false).1)
 
-/-- what the poll thread of `t` does up to its first polls (modulebase.py:726-800): the start-up sequence — configured
+/-- what the poll thread of `t` does up to its first polls (`Module.__pollThread`): the start-up sequence — configured
 values and initial reads of every member, first polls of the polled members — and the report that the first round is
-done.  A communication failure ends the sequence at once (`except CommunicationFailedError`): the round is reported done
-and the thread goes on to its main loop, which polls the polled members that have not been polled yet — the
-`writeInitParams` and `initialReads` of the members not reached are never made up for (recorded finding of C15). -/
+done.  A communication failure ends the sequence at once (`except CommunicationFailedError`): the round is reported done,
+then the configured values of the members the sequence did not reach are written (`lateWrites`; none when the failure hit
+a first poll: every member was reached), and only then the thread goes on to its main loop, which polls the polled
+members that have not been polled yet.  The `initialReads` of the members not reached are not made up for. -/
 def prologue (st : St) (t : Name) : List Ev :=
   let ms := members st t
   let polled := ms.filter (fun m => (cfgOf st m).poll)
   match (initLoop st ms).aborted with
-  | some _ => (initLoop st ms).evs ++ [Ev.rounddone t] ++ latePolls st polled
+  | some rest => (initLoop st ms).evs ++ [Ev.rounddone t] ++ lateWrites st rest ++ latePolls st polled
   | none =>
     match (pollLoop st polled).aborted with
     | some rest => (initLoop st ms).evs ++ (pollLoop st polled).evs ++ [Ev.rounddone t] ++ latePolls st rest
